@@ -159,6 +159,24 @@ theorem c07_add_racing_remove_repaired :
     let rs1 := addApply true (removeFirst [⟨10, [10, 11]⟩] 11) (addRead [⟨10, [10, 11]⟩] 12) 12
     rs1 = [⟨12, [12]⟩] ∧ get rs1.head! 11 = [] ∧ heights (removeFirst (add rs1 13) 11) = [12, 13] := by decide
 
+/-- the cache loop of `processHeaders(…, to)` - `First()`, `Get(to)`, store, `Remove(to)`, again - over ANY pending set that satisfies
+    the invariant: it hands to the Store exactly the cached heads up to `to`, in order, each once, leaves exactly the ones above `to`,
+    and terminates within one iteration per range (+1) -/
+theorem c07_cache_loop_exact (rs : Ranges) (to : Nat) (hi : Ranges.Inv rs) :
+    (drain rs.length rs to).1 = (heights rs).filter (· ≤ to) ∧
+    heights (drain rs.length rs to).2 = (heights rs).filter (· > to) ∧ Ranges.Inv (drain rs.length rs to).2 :=
+  drain_spec to rs.length rs hi (clean_length_le rs)
+
+/-- … in particular after every sequence of Add / First / Remove / Prune calls -/
+theorem c07_cache_loop_exact_reachable (ops : List Op) (to : Nat) :
+    let rs := run [] ops
+    (drain rs.length rs to).1 = (heights rs).filter (· ≤ to) ∧ heights (drain rs.length rs to).2 = (heights rs).filter (· > to) := by
+  intro rs
+  have := c07_cache_loop_exact rs to (c07_ranges_inv_run ops)
+  exact ⟨this.1, this.2.1⟩
+
+example : drain 3 (run [] [.add 10, .add 11, .add 20, .add 21, .add 30]) 20 = ([10, 11, 20], [⟨21, [21]⟩, ⟨30, [30]⟩]) := by decide
+
 /-- non-vacuity: a reachable pending set with two ranges, a gap and a cached target -/
 example : Ranges.Inv (run [] [.add 10, .add 11, .add 20, .first]) ∧ (20 ∈ heights (run [] [.add 10, .add 11, .add 20, .first])) ∧
     get ((run [] [.add 10, .add 11, .add 20, .first]).head!) 20 = [10, 11] :=
